@@ -540,7 +540,7 @@ func c11LLRun(c *vh.Ctx, cs c11LL) (sig, msg, outcome string) {
 				return srvResp{Status: 404}
 			}
 			var b strings.Builder
-			sc := "CAN-BLOCK-RELOAD=YES,PART-HOLD-BACK=3.00000"
+			sc := "CAN-BLOCK-RELOAD=YES,HOLD-BACK=6.00000,PART-HOLD-BACK=3.00000" // (HOLD-BACK: a standard attribute the client has no use for)
 			if cs.CanSkip {
 				sc += ",CAN-SKIP-UNTIL=6.00000"
 			}
